@@ -126,4 +126,11 @@ class ThinPlateSplines(Alignment, Transform, Invertible):
 
         :type: ``type(self)``
         """
-        return ThinPlateSplines(self.target, self.source, kernel=self.kernel)
+        # The kernel of the inverse has to be of the same kind, but centred on
+        # the inverse's own source (this transform's target).
+        return ThinPlateSplines(
+            self.target,
+            self.source,
+            kernel=type(self.kernel)(self.target.points),
+            min_singular_val=self.min_singular_val,
+        )
